@@ -20,34 +20,43 @@ def _alarm(signum, frame):
     raise CallTimeout()
 
 
-_WD = {"on": False, "beat": 0, "seen": -1, "period": 45}
+_WD = {"on": False, "beat": 0, "seen": -1, "period": 30, "call": None}
 
 
 def heartbeat():
     _WD["beat"] += 1
 
 
-def _in_implementation(frame):
+def _implementation_call(frame):
+    """the outermost frame of the implementation on the interrupted stack (the call the harness made), or None"""
+    outer = None
     while frame is not None:
         fn = frame.f_code.co_filename.replace("\\", "/")
         if "/fastavro/" in fn:
-            return True
+            outer = frame
         frame = frame.f_back
-    return False
+    return outer
+
+
+def _in_implementation(frame):
+    return _implementation_call(frame) is not None
 
 
 def _wd_alarm(signum, frame):
     """the check's watchdog: fires every `period` seconds; when the check made no progress (no case counted, no driver
-    batch) since the last tick AND the interrupted code is inside the implementation, the implementation call in
-    progress is aborted with CallTimeout — a call that does not return is a failure of that call, reported with its
-    input like any other, instead of a check that hangs"""
-    if _WD["beat"] == _WD["seen"] and _in_implementation(frame):
-        _WD["seen"] = -1
+    batch) since the last tick AND the interrupted code is inside the SAME implementation call as at the last tick (the
+    frame object of the call is remembered, so it is that very call and not another one the harness happened to be in
+    after a slow stretch of its own), the call is aborted with CallTimeout — a call that does not return is a failure of
+    that call, reported with its input like any other, instead of a check that hangs.  A call is therefore given
+    between one and two periods."""
+    call = _implementation_call(frame)
+    if call is not None and _WD["beat"] == _WD["seen"] and call is _WD["call"]:
+        _WD["seen"], _WD["call"] = -1, None
         raise CallTimeout("the call made no progress for %d s" % _WD["period"])
-    _WD["seen"] = _WD["beat"]
+    _WD["seen"], _WD["call"] = _WD["beat"], call
 
 
-def watchdog_start(period=45, memory_gb=10):
+def watchdog_start(period=30, memory_gb=10):
     import signal
     import threading
     if threading.current_thread() is not threading.main_thread():
